@@ -208,9 +208,9 @@ Variable yl : str -> option val.
 
 (* the accepted value of a leaf survives its own serialise / parse pair (proved for the container grammar in
    leaf_stable_simple below; evaluated per case by the judge for the rest) *)
-Definition leaf_stable (lf : leaf) (w : val) : Prop :=
+Definition leaf_stable (sn : bool) (lf : leaf) (w : val) : Prop :=
   w = VNone \/
-  exists j, ser_leaf yl (lf_ty lf) (lf_def lf) w = Some j /\
+  exists j, ser_leaf yl sn (lf_ty lf) (lf_def lf) w = Some j /\
             exists w', check_entry yl (lf_ty lf) (lf_def lf) j = Some w' /\ veq w' w = true.
 
 Lemma dump_entry_class0 vr lf w j :
@@ -223,22 +223,22 @@ Proof.
   destruct (cleanup yl false (vr_skip_none vr) (lf_ty lf) (lf_def lf) (lf_def lf)) as [| |dj]; try (left; reflexivity).
   unfold trim. destruct (py_eq j dj).
   - destruct (veq (lf_def lf) w); [right; split; reflexivity|discriminate].
-  - destruct (val_eqb (trim_rec j dj) j); [left; reflexivity|discriminate].
+  - left; reflexivity.
 Qed.
 
 Lemma cleanup_nonnone sn t dflt w j :
-  w <> VNone -> ser_leaf yl t dflt w = Some j -> cleanup yl true sn t dflt w = EPresent j.
+  w <> VNone -> ser_leaf yl sn t dflt w = Some j -> cleanup yl true sn t dflt w = EPresent j.
 Proof. intros Hn Hs. destruct w; try congruence; unfold cleanup; rewrite Hs; reflexivity. Qed.
 
 Lemma leaf_rt_ok vr lf w :
-  leaf_class yl vr (lf, w) = 0%N -> leaf_stable lf w ->
+  leaf_class yl vr (lf, w) = 0%N -> leaf_stable (vr_skip_none vr) lf w ->
   exists w', leaf_rt yl plain_ok yrepr jrepr dtab ltab vr lf w = Some w' /\ veq w' w = true.
 Proof.
   unfold leaf_class. intros Hc Hst.
   destruct (vr_comments vr) eqn:Ecm; [discriminate|].
   destruct (has_null_enum w) eqn:Een; [discriminate|].
-  destruct (veq w (lf_def lf) && negb (leaf_stable_b yl lf w)) eqn:E8; [discriminate|].
-  destruct (vr_skip_none vr && is_vnone w && negb (is_vnone (lf_def lf))) eqn:E1; [discriminate|].
+  destruct (vr_skip_none vr && (is_vnone w && negb (is_vnone (lf_def lf)) || none_loss (top_fill (lf_ty lf)) (lf_ty lf) w)) eqn:E1; [discriminate|].
+  destruct (veq w (lf_def lf) && negb (leaf_stable_b yl (vr_skip_none vr) lf w)) eqn:E8; [discriminate|].
   destruct (N.eqb (skipdef_class yl vr lf w) 0) eqn:Esd; simpl in Hc;
     [apply N.eqb_eq in Esd|apply N.eqb_neq in Esd; congruence].
   assert (Hpresent : forall j, dump_entry yl vr lf w = EPresent j ->
@@ -254,7 +254,7 @@ Proof.
                                          (reload plain_ok yrepr jrepr dtab ltab (vr_fmt vr) j)
                        end = Some w' /\ veq w' w = true).
   { intros ->. destruct (vr_skip_none vr) eqn:Esn.
-    - simpl in E1. apply negb_false_iff in E1.
+    - simpl in E1. apply orb_false_iff in E1. destruct E1 as [E1 _]. apply negb_false_iff in E1.
       unfold dump_entry. simpl. rewrite Esn. destruct (lf_def lf); try discriminate. exists VNone. auto.
     - destruct (dump_entry_class0 vr lf VNone VNone Esd) as [He|[He Hv]].
       + simpl. rewrite Esn. reflexivity.
@@ -270,7 +270,7 @@ Qed.
 
 Theorem roundtrip_ok vr : forall lvs,
   case_class yl vr lvs = 0%N ->
-  Forall (fun lw => leaf_stable (fst lw) (snd lw)) lvs ->
+  Forall (fun lw => leaf_stable (vr_skip_none vr) (fst lw) (snd lw)) lvs ->
   exists ws, roundtrip yl plain_ok yrepr jrepr dtab ltab vr lvs = Some ws /\
              Forall2 (fun w' w => veq w' w = true) ws (map snd lvs).
 Proof.
